@@ -33,6 +33,10 @@ func VerifHarness_C19_CanonicalRoundTrip() {
 	if fragment != "" {
 		opts = append(opts, WithFragment(fragment))
 	}
+	// options are named, not positional: the caller may list them in either order
+	if len(opts) == 2 && verifrt.NondetBool("fragmentFirst") {
+		opts[0], opts[1] = opts[1], opts[0]
+	}
 	c := New(url, opts...)
 	want := url
 	if version != "" {
